@@ -27,11 +27,20 @@ def main():
     ap.add_argument('--seed', type=int, default=int(os.environ.get('VERIF_SEED') or 20260929))
     ap.add_argument('--replay')
     ap.add_argument('--exec-plan')
+    ap.add_argument('--exec-plans')
     ns = ap.parse_args()
+    if ns.exec_plan or ns.exec_plans:
+        # internal modes keep the PYTHONHASHSEED their parent chose on purpose
+        if not os.environ.get('PYTHONHASHSEED'):
+            raise core.HarnessError('internal exec mode needs an explicit PYTHONHASHSEED')
+        core.use_repo()
+        if ns.exec_plan:
+            from sim import driver
+            return driver.exec_plan_stdin()
+        from sim import world_xproc
+        return world_xproc.exec_plans_stdin()
     core.ensure_env()
     from sim import driver, specs
-    if ns.exec_plan:
-        return driver.exec_plan_stdin()
     if ns.replay:
         return driver.replay(ns.replay)
     if ns.prop not in specs.SPECS:
@@ -40,7 +49,11 @@ def main():
     if ns.tier not in ('quick', 'thorough'):
         ns.tier = 'quick'
     print(f'VERIF_SEED={ns.seed} tier={ns.tier} repo={core.REPO} hashseed={os.environ.get("PYTHONHASHSEED")}')
-    return driver.explore(ns.prop, ns.tier, ns.seed, specs.SPECS[ns.prop])
+    spec = specs.SPECS[ns.prop]
+    if spec['world'] == 'X':
+        from sim import world_xproc
+        return world_xproc.explore(ns.prop, ns.tier, ns.seed, spec)
+    return driver.explore(ns.prop, ns.tier, ns.seed, spec)
 
 
 if __name__ == '__main__':
